@@ -167,25 +167,25 @@ func (c *Ctx) Need(k string, n int64) {
 }
 
 type Result struct {
-	Prop         string           `json:"property"`
-	Tier         string           `json:"tier"`
-	Seed         int64            `json:"seed"`
-	Shard        int              `json:"shard"`
-	NShards      int              `json:"nshards"`
-	Evals        int64            `json:"evaluations"`
-	Distinct     []string         `json:"distinct"`
-	DisjointN    int64            `json:"disjoint_distinct"`
-	Counters     map[string]int64 `json:"counters"`
-	Unspec       map[string]int64 `json:"unspecified"`
-	Foreign      map[string]int64 `json:"foreign_observations"`
-	Samples      []interface{}    `json:"samples"`
-	Viols        []Violation      `json:"violations"`
-	Inconclusive []string         `json:"inconclusive"`
-	Exhaustive   bool             `json:"exhaustive"`
-	Notes        []string         `json:"notes"`
+	Prop         string              `json:"property"`
+	Tier         string              `json:"tier"`
+	Seed         int64               `json:"seed"`
+	Shard        int                 `json:"shard"`
+	NShards      int                 `json:"nshards"`
+	Evals        int64               `json:"evaluations"`
+	Distinct     []string            `json:"distinct"`
+	DisjointN    int64               `json:"disjoint_distinct"`
+	Counters     map[string]int64    `json:"counters"`
+	Unspec       map[string]int64    `json:"unspecified"`
+	Foreign      map[string]int64    `json:"foreign_observations"`
+	Samples      []interface{}       `json:"samples"`
+	Viols        []Violation         `json:"violations"`
+	Inconclusive []string            `json:"inconclusive"`
+	Exhaustive   bool                `json:"exhaustive"`
+	Notes        []string            `json:"notes"`
 	Unique       map[string][]string `json:"unique_across_shards,omitempty"`
-	WallS        float64          `json:"wall_s"`
-	Done         bool             `json:"done"`
+	WallS        float64             `json:"wall_s"`
+	Done         bool                `json:"done"`
 }
 
 func (c *Ctx) Write(path string, done bool) error {
